@@ -58,7 +58,11 @@ pub async fn run(seed: u64, sched: Rc<Sched>, keep_log: bool) -> (CaseResult, Ve
     let hist: SharedHist<Ev> = new_hist(keep_log);
     let clock = ctx::ManualClock::new();
     let root = Arc::new(ctx::test_root(&clock));
-    let (pa, pb) = pipe::pair(seed, "mux", PipeCfg::random(&mut rng), PipeCfg::random(&mut rng));
+    let mut brng = kit::stream(seed, "mux-boundary");
+    let boundary = brng.gen_range(0..100) < 10;
+    let (ca, cb) = (PipeCfg::random(&mut rng), PipeCfg::random(&mut rng));
+    // (Boundary runs move hundreds of kilobytes: over a benign transport.)
+    let (pa, pb) = if boundary { pipe::pair(seed, "mux", PipeCfg::benign(), PipeCfg::benign()) } else { pipe::pair(seed, "mux", ca, cb) };
     pa.tx.lock().unwrap().keep_wire = true;
     pb.tx.lock().unwrap().keep_wire = true;
     let dirs = [pa.tx.clone(), pb.tx.clone()]; // dirs[s] = what side s sends
@@ -70,7 +74,18 @@ pub async fn run(seed: u64, sched: Rc<Sched>, keep_log: bool) -> (CaseResult, Ve
         let wframe = [1u64, 3, 64, 5000, 65535][rng.gen_range(0..5)];
         (frame, buffer, count, wframe)
     };
-    let cfgs = [mk_cfg(&mut rng), mk_cfg(&mut rng)];
+    let mut cfgs = [mk_cfg(&mut rng), mk_cfg(&mut rng)];
+    // Boundary population (own stream, so the other runs keep their fingerprints): frame sizes at
+    // and just above the largest length a frame header can carry, and writes of more than 64 KiB
+    // without a flush.  A configuration the multiplexer refuses to run with is a legitimate
+    // outcome (nothing is delivered); delivering anything but the bytes written is not.
+    if boundary {
+        for c in cfgs.iter_mut() {
+            let wframe = [65535u64, 65536, 65536, 65536, 65537][brng.gen_range(0..5)];
+            *c = (65536, 65536 * 3, 5, wframe);
+        }
+        hist.note(format!("boundary configuration: {cfgs:?}"));
+    }
     let ncaps = rng.gen_range(1..=3u64);
     // For each capability and direction (0: side 0 connects / side 1 accepts; 1: the reverse).
     let mut specs: [Vec<QueueSpec>; 2] = [vec![], vec![]];
@@ -154,6 +169,7 @@ pub async fn run(seed: u64, sched: Rc<Sched>, keep_log: bool) -> (CaseResult, Ve
                         let len: u64 = match wrng.gen_range(0..10) { 0 => 0, 1..=6 => wrng.gen_range(1..200), _ => wrng.gen_range(200..5000) };
                         let chunk = [1usize, 5, 64, 4096][wrng.gen_range(0..4)];
                         let flush_pct = wrng.gen_range(0..60u32);
+                        let (len, chunk, flush_pct) = if boundary { (65_000 + len, 70_000usize, flush_pct / 8) } else { (len, chunk, flush_pct) };
                         let rmode = if complete_readers { wrng.gen_range(0..2) } else { wrng.gen_range(0..4) };
                         let rchunk = [1usize, 3, 50, 1000][wrng.gen_range(0..4)];
                         let stop_after = wrng.gen_range(0..300u64);
